@@ -97,12 +97,18 @@ impl<'a> AsyncRead for ScriptAsync<'a> {
 
 /// drive `next().await` to the end (or first error); returns observations and whether a second None followed
 pub fn run_async<T: Spec>(bytes: &[u8], steps: Vec<AStep>, buffered: &[u64], bound: usize) -> (Vec<Obs>, bool, usize) {
+    run_async_past::<T>(bytes, steps, buffered, bound, 0)
+}
+
+/// `past`: keep going after up to that many CorruptedTagData errors (as `read_from_past` does for the blocking iterator)
+pub fn run_async_past<T: Spec>(bytes: &[u8], steps: Vec<AStep>, buffered: &[u64], bound: usize, past: usize) -> (Vec<Obs>, bool, usize) {
     let r = guarded(|| {
         futures::executor::block_on(async {
             let tags: Vec<T> = buffered.iter().filter_map(|id| T::get_master_tag(*id, Master::Start)).collect();
             let src = ScriptAsync::new(bytes, steps);
             let mut it = TagIteratorAsync::<_, T>::new(src, &tags);
             let mut out = Vec::new();
+            let mut data_errors = 0;
             let mut again_none = false;
             loop {
                 match it.next().await {
@@ -119,8 +125,13 @@ pub fn run_async<T: Spec>(bytes: &[u8], steps: Vec<AStep>, buffered: &[u64], bou
                         }
                     }
                     Some(Err(e)) => {
-                        out.push(Obs::Err(norm_err(e)));
-                        break;
+                        let k = norm_err(e);
+                        let go_on = matches!(k, ErrK::TagData { .. }) && data_errors < past;
+                        out.push(Obs::Err(k));
+                        if !go_on {
+                            break;
+                        }
+                        data_errors += 1;
                     }
                 }
             }
@@ -134,6 +145,10 @@ pub fn run_async<T: Spec>(bytes: &[u8], steps: Vec<AStep>, buffered: &[u64], bou
 }
 
 pub fn run_stream<T: Spec>(bytes: &[u8], steps: Vec<AStep>, buffered: &[u64], bound: usize) -> Vec<Obs> {
+    run_stream_past::<T>(bytes, steps, buffered, bound, 0)
+}
+
+pub fn run_stream_past<T: Spec>(bytes: &[u8], steps: Vec<AStep>, buffered: &[u64], bound: usize, past: usize) -> Vec<Obs> {
     let r = guarded(|| {
         futures::executor::block_on(async {
             let tags: Vec<T> = buffered.iter().filter_map(|id| T::get_master_tag(*id, Master::Start)).collect();
@@ -141,6 +156,7 @@ pub fn run_stream<T: Spec>(bytes: &[u8], steps: Vec<AStep>, buffered: &[u64], bo
             let it = TagIteratorAsync::<_, T>::new(src, &tags);
             let mut st = Box::pin(it.into_stream());
             let mut out = Vec::new();
+            let mut data_errors = 0;
             while let Some(x) = st.next().await {
                 match x {
                     Ok(t) => {
@@ -151,8 +167,13 @@ pub fn run_stream<T: Spec>(bytes: &[u8], steps: Vec<AStep>, buffered: &[u64], bo
                         }
                     }
                     Err(e) => {
-                        out.push(Obs::Err(norm_err(e)));
-                        break;
+                        let k = norm_err(e);
+                        let go_on = matches!(k, ErrK::TagData { .. }) && data_errors < past;
+                        out.push(Obs::Err(k));
+                        if !go_on {
+                            break;
+                        }
+                        data_errors += 1;
                     }
                 }
             }
@@ -525,7 +546,10 @@ fn stage_any(i: &Input, c: &mut Case) -> Result<(), String> {
     c.sample_with(|| format!("{} | schedule {:?} | buffered {:x?}", describe_mixed(&m), &steps[..steps.len().min(24)], buffered));
     with_spec!(m.spec, T => {
         let cfg = ReadCfg { buffered: buffered.clone(), max_size: MaxSize::Set(Some(1 << 20)), ..ReadCfg::default() };
-        let base = read_all::<T>(&m.bytes, &cfg);
+        // both iterators are driven past undecodable payloads (the element is consumed, iteration goes on behind it): what comes after
+        // such an error belongs to "the item sequence" as well
+        const PAST: usize = 3;
+        let base = read_from_past::<T, &[u8]>(&m.bytes[..], &cfg, item_bound(len), PAST);
         if matches!(base.last(), Some(Obs::Panic(_)) | Some(Obs::Runaway(_))) {
             return Err(format!("blocking iterator: {}", render_obs(&base)));
         }
@@ -534,6 +558,7 @@ fn stage_any(i: &Input, c: &mut Case) -> Result<(), String> {
             c.exclude("input_declares_more_than_1MiB_and_async_adapter_has_no_limit_setter");
             return Ok(());
         }
+        c.label_if(base.iter().any(|o| matches!(o, Obs::Err(ErrK::TagData { .. }))) && !matches!(base.last(), Some(Obs::Err(ErrK::TagData { .. }))), "items_after_an_undecodable_payload");
         // a straddling schedule may make the inner iterator look at a size field of a tag that the complete parse never reaches
         // the same way; keep the harness safe: no offset of the input may announce more than 4 MiB under the default limit
         if max_declarable_size(&m.bytes, 4_000_000_000) > SAFE_ALLOC {
@@ -541,18 +566,19 @@ fn stage_any(i: &Input, c: &mut Case) -> Result<(), String> {
             c.exclude("some_offset_announces_multi_MiB_size_under_default_limit");
             return Ok(());
         }
-        let (obs, again_none, _) = run_async::<T>(&m.bytes, steps.clone(), &buffered, item_bound(len));
+        let (obs, again_none, _) = run_async_past::<T>(&m.bytes, steps.clone(), &buffered, item_bound(len), PAST);
         c.checks += 1;
         let ctx = |msg: String| format!("{}\n  schedule: {:?}\n  buffered: {:x?}\n  async:    {}\n  blocking: {}\n  input: {}", msg, &steps[..steps.len().min(40)], buffered, render_obs(&obs), render_obs(&base), describe_mixed(&m));
         if obs != base {
-            return Err(ctx("the async iterator's items / offsets / first error differ from the blocking iterator's".into()));
+            return Err(ctx("the async iterator's items / offsets / errors differ from the blocking iterator's".into()));
         }
-        if first_err(&base).is_none() && !again_none {
+        if !matches!(base.last(), Some(Obs::Err(_))) && !again_none {
             return Err(ctx("after returning None the async iterator did not return None again".into()));
         }
-        let so = run_stream::<T>(&m.bytes, steps.clone(), &buffered, item_bound(len));
+        let so = run_stream_past::<T>(&m.bytes, steps.clone(), &buffered, item_bound(len), PAST);
         c.checks += 1;
-        if items_of(&so) != items_of(&base) || first_err(&so).map(|e| e.short()) != first_err(&base).map(|e| e.short()) {
+        let plain = |v: &[Obs]| -> Vec<String> { v.iter().map(|o| match o { Obs::Item(f, _) => format!("{:?}", f), other => other.short() }).collect() };
+        if plain(&so) != plain(&base) {
             return Err(ctx(format!("into_stream() yields a different sequence: {}", render_obs(&so))));
         }
         Ok(())
